@@ -79,7 +79,19 @@ theorem mem_dropDup_of_fresh (a b : List KV) (e : KV) (h : e.2 ∉ valsOf a) :
     right
     exact ⟨ih (by simpa [valsOf] using h.2), by simpa using h.1⟩
 
-/-! ### `uniq`, `sortKeys`, `diff` (`Index.difference`) -/
+/-! ### `isort`, `uniq`, `sortKeys`, `diff` (`Index.difference`) -/
+
+theorem insertBy_perm {α : Type} (le : α → α → Bool) (a : α) : ∀ l : List α, (insertBy le a l).Perm (a :: l)
+  | [] => List.Perm.refl _
+  | b :: bs => by
+    unfold insertBy
+    split
+    · exact List.Perm.refl _
+    · exact ((insertBy_perm le a bs).cons b).trans (List.Perm.swap a b bs)
+
+theorem isort_perm {α : Type} (le : α → α → Bool) : ∀ l : List α, (isort le l).Perm l
+  | [] => List.Perm.refl _
+  | a :: as => (insertBy_perm le a _).trans ((isort_perm le as).cons a)
 
 theorem mem_uniq {k : Key} {l : List Key} : k ∈ uniq l ↔ k ∈ l := by
   induction l with
@@ -106,11 +118,11 @@ theorem uniq_nodup (l : List Key) : (uniq l).Nodup := by
     simp at h
 
 theorem mem_diff {k : Key} {a b : List Key} : k ∈ diff a b ↔ k ∈ a ∧ k ∉ b := by
-  simp [diff, sortKeys, List.mem_mergeSort, mem_uniq, List.mem_filter]
+  simp [diff, sortKeys, (isort_perm keyLe _).mem_iff, mem_uniq, List.mem_filter]
 
 theorem diff_nodup (a b : List Key) : (diff a b).Nodup := by
   unfold diff sortKeys
-  exact ((List.mergeSort_perm _ _).nodup_iff).mpr (uniq_nodup _)
+  exact ((isort_perm _ _).nodup_iff).mpr (uniq_nodup _)
 
 /-- `diff` looks at its second argument only through membership -/
 theorem diff_congr_right (a b b' : List Key) (h : ∀ k, k ∈ b ↔ k ∈ b') : diff a b = diff a b' := by
@@ -223,14 +235,14 @@ theorem lookup_of_mem : ∀ (l : List KV), (keysOf l).Nodup → ∀ {k : Key} {p
   | [], _, _, _, h => by cases h
   | (k', p') :: es, hk, k, p, h => by
     simp only [keysOf, List.map_cons, List.nodup_cons] at hk
-    rcases List.mem_cons.mp h with h | h
-    · cases h; simp [List.lookup]
+    rcases List.mem_cons.mp h with h0 | h1
+    · cases h0; simp [List.lookup]
     · have hne : k ≠ k' := by
         intro heq; subst heq
-        exact hk.1 (List.mem_map_of_mem (f := fun x : KV => x.1) h)
+        exact hk.1 (List.mem_map_of_mem (f := fun x : KV => x.1) h1)
       have hb : (k == k') = false := by simpa using hne
       simp only [List.lookup, hb]
-      exact lookup_of_mem es hk.2 h
+      exact lookup_of_mem es hk.2 h1
 
 theorem mem_of_lookup : ∀ (l : List KV) {k : Key} {p : Nat}, l.lookup k = some p → (k, p) ∈ l
   | [], _, _, h => by simp [List.lookup] at h
@@ -254,11 +266,11 @@ theorem key_eq_of_val_eq : ∀ (l : List KV), (valsOf l).Nodup → ∀ {k1 k2 : 
   | [], _, _, _, _, h, _ => by cases h
   | (k', p') :: es, hv, k1, k2, p, h1, h2 => by
     simp only [valsOf, List.map_cons, List.nodup_cons] at hv
-    rcases List.mem_cons.mp h1 with h1 | h1 <;> rcases List.mem_cons.mp h2 with h2 | h2
-    · cases h1; cases h2; rfl
-    · cases h1; exact absurd (List.mem_map_of_mem (f := fun x : KV => x.2) h2) hv.1
-    · cases h2; exact absurd (List.mem_map_of_mem (f := fun x : KV => x.2) h1) hv.1
-    · exact key_eq_of_val_eq es hv.2 h1 h2
+    rcases List.mem_cons.mp h1 with a1 | a1 <;> rcases List.mem_cons.mp h2 with a2 | a2
+    · cases a1; cases a2; rfl
+    · cases a1; exact absurd (List.mem_map_of_mem (f := fun x : KV => x.2) a2) hv.1
+    · cases a2; exact absurd (List.mem_map_of_mem (f := fun x : KV => x.2) a1) hv.1
+    · exact key_eq_of_val_eq es hv.2 a1 a2
 
 theorem attach_spec : ∀ (final : List KV) (rows : List (Int × Key)) (es : List Entry),
     attach final rows = some es ↔ (es.map rowOf = rows ∧ ∀ e ∈ es, final.lookup e.key = some e.pos)
@@ -310,6 +322,277 @@ theorem nodupB_iff : ∀ (l : List Key), nodupB l = true ↔ l.Nodup
     · rintro ⟨h1, h2⟩; exact ⟨by simpa using h1, h2⟩
     · rintro ⟨h1, h2⟩; exact ⟨by simpa using h1, h2⟩
 
-theorem sortEntries_perm (es : List Entry) : (sortEntries es).Perm es := List.mergeSort_perm _ _
+theorem sortEntries_perm (es : List Entry) : (sortEntries es).Perm es := isort_perm _ _
+
+theorem entries_eq_of_rows_lookup (final : List KV) : ∀ (es1 es2 : List Entry),
+    es1.map rowOf = es2.map rowOf → (∀ e ∈ es1, final.lookup e.key = some e.pos) →
+    (∀ e ∈ es2, final.lookup e.key = some e.pos) → es1 = es2
+  | [], [], _, _, _ => rfl
+  | [], _ :: _, h, _, _ => by simp at h
+  | _ :: _, [], h, _, _ => by simp at h
+  | a :: as, b :: bs, h, h1, h2 => by
+    simp only [List.map_cons, List.cons.injEq] at h
+    have ha := h1 a List.mem_cons_self
+    have hb := h2 b List.mem_cons_self
+    have hr : a.sim = b.sim ∧ a.key = b.key := by simpa [rowOf] using h.1
+    have hp : a.pos = b.pos := by
+      rw [hr.2] at ha; rw [ha] at hb; exact Option.some.inj hb
+    have : a = b := by
+      cases a; cases b; simp_all
+    rw [this, entries_eq_of_rows_lookup final as bs h.2 (fun e he => h1 e (List.mem_cons_of_mem _ he))
+      (fun e he => h2 e (List.mem_cons_of_mem _ he))]
+
+/-! ### one `update` -/
+
+theorem valsOf_kvOf (old : List Entry) : valsOf (old.map kvOf) = old.map (·.pos) := by
+  simp [valsOf, kvOf, List.map_map, Function.comp_def]
+theorem keysOf_kvOf (old : List Entry) : keysOf (old.map kvOf) = old.map (·.key) := by
+  simp [keysOf, kvOf, List.map_map, Function.comp_def]
+
+/-- What a successful `update` did, for every hash function and every fuel: the union of old and new
+keys was duplicate-free; the key-indexed mapping `res` it built extends the old one by entries for batch
+keys, each at its first hash (salt = clock time) or at a salted re-hash; keys and positions of `res` are
+pairwise distinct; the new map is, up to the order of rows, the old map plus one row per batch row, each
+row carrying the position `res` holds for its key. Needs only that the old positions are distinct. -/
+theorem update_ok_spec (h : Key → Salt → Nat) (fuel : Nat) (old : List Entry) (batch : List (Int × Key))
+    (t : Salt) (m' : List Entry) (hpos : (old.map (·.pos)).Nodup)
+    (hu : update h fuel old batch t = .ok m') :
+    ∃ (res : List KV) (newE : List Entry),
+      buildFinal h fuel old batch t = some res ∧
+      (old.map (·.key) ++ batch.map (·.2)).Nodup ∧
+      m'.Perm (old ++ newE) ∧ newE.map rowOf = batch ∧
+      (∃ c, res = old.map kvOf ++ c ∧
+        ∀ e ∈ c, e.1 ∈ batch.map (·.2) ∧ (e.2 = h e.1 t ∨ ∃ s, e.2 = h e.1 (.int s))) ∧
+      (valsOf res).Nodup ∧ (keysOf res).Nodup ∧
+      (∀ e ∈ old ++ newE, (e.key, e.pos) ∈ res) := by
+  unfold update at hu
+  simp only at hu
+  split at hu
+  · cases hu
+  rename_i hnd
+  have hnd' : (old.map (·.key) ++ batch.map (·.2)).Nodup := by
+    have : nodupB (List.map (fun x => x.2) (old.map rowOf ++ batch)) = true := by simpa using hnd
+    have := (nodupB_iff _).mp this
+    simpa [rowOf, List.map_append, List.map_map, Function.comp_def] using this
+  split at hu
+  · cases hu
+  rename_i res hbf
+  split at hu
+  · cases hu
+  rename_i es hat
+  cases hu
+  have hbf' := hbf
+  unfold buildFinal at hbf'
+  simp only at hbf'
+  obtain ⟨⟨c, hc, hcmem⟩, hvr, hkr, hall⟩ :=
+    resolve_spec h fuel (batch.map (·.2)) (old.map kvOf) ((batch.map (·.2)).map fun k => (k, h k t)) res
+      (by rw [valsOf_kvOf]; exact hpos) (by rw [keysOf_kvOf]; exact hnd') (keysOf_map_pair _ _) hbf'
+  obtain ⟨hrows, hlook⟩ := (attach_spec res _ es).mp hat
+  obtain ⟨es1, es2, hes, hes1, hes2⟩ := List.map_eq_append_iff.mp hrows
+  have hold : ∀ e ∈ old, res.lookup e.key = some e.pos := by
+    intro e he
+    apply lookup_of_mem res hkr
+    rw [hc]
+    exact List.mem_append_left _ (List.mem_map_of_mem (f := kvOf) he)
+  have h1 : es1 = old := by
+    apply entries_eq_of_rows_lookup res es1 old hes1 _ hold
+    intro e he; exact hlook e (by rw [hes]; exact List.mem_append_left _ he)
+  subst h1
+  refine ⟨res, es2, hbf, hnd', ?_, hes2, ⟨c, hc, ?_⟩, hvr, hkr, ?_⟩
+  · rw [← hes]; exact sortEntries_perm es
+  · intro e he
+    obtain ⟨h1, h2⟩ := hcmem e he
+    refine ⟨h1, ?_⟩
+    rcases h2 with h2 | h2
+    · left
+      simp only [List.mem_map] at h2
+      obtain ⟨k, _, rfl⟩ := h2
+      rfl
+    · exact Or.inr h2
+  · intro e he
+    rw [← hes] at he
+    exact mem_of_lookup res (hlook e he)
+
+/-! ### the collision loop sees what is already placed only as a set
+
+`resolveLoop` started from `a ++ c` and from `a' ++ c`, where `a` and `a'` hold the same positions and
+the same keys (in any order, under any labels), adds exactly the same entries. This is what makes the
+positions of new keys independent of simulant labels and of the order of the old map. -/
+
+theorem resolveLoop_prefix (h : Key → Salt → Nat) :
+    ∀ (fuel salt : Nat) (coll : List Key) (cur res : List KV),
+      (valsOf cur).Nodup → resolveLoop h fuel salt coll cur = some res → ∃ c, res = cur ++ c := by
+  intro fuel
+  induction fuel with
+  | zero => intro _ _ _ _ _ h; simp [resolveLoop] at h
+  | succ f ih =>
+    intro salt coll cur res hv hres
+    unfold resolveLoop at hres
+    split at hres
+    · cases hres; exact ⟨[], by simp⟩
+    · simp only at hres
+      obtain ⟨c1, hc1, _⟩ := dropDup_append_of_nodup cur (coll.map fun k => (k, h k (.int salt))) hv
+      obtain ⟨c', hc'⟩ := ih _ _ _ res (dropDup_nodup_vals _) hres
+      exact ⟨c1 ++ c', by rw [hc', hc1, List.append_assoc]⟩
+
+theorem contains_congr {α : Type} [BEq α] [LawfulBEq α] (l l' : List α) (h : ∀ x, x ∈ l ↔ x ∈ l') (x : α) :
+    l.contains x = l'.contains x := by
+  have := h x
+  cases h1 : l.contains x <;> cases h2 : l'.contains x <;> simp_all
+
+theorem resolveLoop_congr (h : Key → Salt → Nat) (a a' : List KV)
+    (hvm : ∀ p, p ∈ valsOf a ↔ p ∈ valsOf a') (hkm : ∀ k, k ∈ keysOf a ↔ k ∈ keysOf a') :
+    ∀ (fuel salt : Nat) (coll : List Key) (c r : List KV),
+      (valsOf (a ++ c)).Nodup → (valsOf (a' ++ c)).Nodup →
+      resolveLoop h fuel salt coll (a ++ c) = some (a ++ r) →
+      resolveLoop h fuel salt coll (a' ++ c) = some (a' ++ r) := by
+  intro fuel
+  induction fuel with
+  | zero => intro _ _ _ _ _ _ h; simp [resolveLoop] at h
+  | succ f ih =>
+    intro salt coll c r hv hv' hres
+    unfold resolveLoop at hres ⊢
+    split
+    · rename_i hemp
+      rw [if_pos hemp] at hres
+      have : a ++ c = a ++ r := Option.some.inj hres
+      rw [List.append_cancel_left this]
+    · rename_i hemp
+      rw [if_neg hemp] at hres
+      simp only at hres ⊢
+      have hF : ∀ upd : List KV,
+          (dropDup upd).filter (fun x => !(valsOf (a ++ c)).contains x.2) =
+          (dropDup upd).filter (fun x => !(valsOf (a' ++ c)).contains x.2) := by
+        intro upd
+        apply List.filter_congr
+        intro x _
+        congr 1
+        apply contains_congr
+        intro p
+        simp only [valsOf_append, List.mem_append, hvm p]
+      rw [dropDup_append_eq _ _ hv, List.append_assoc] at hres
+      rw [dropDup_append_eq _ _ hv', List.append_assoc, ← hF]
+      have hd : diff (keysOf (coll.map fun k => (k, h k (.int salt))))
+            (keysOf (a' ++ (c ++ (dropDup (coll.map fun k => (k, h k (.int salt)))).filter
+              (fun x => !(valsOf (a ++ c)).contains x.2)))) =
+          diff (keysOf (coll.map fun k => (k, h k (.int salt))))
+            (keysOf (a ++ (c ++ (dropDup (coll.map fun k => (k, h k (.int salt)))).filter
+              (fun x => !(valsOf (a ++ c)).contains x.2)))) := by
+        apply diff_congr_right
+        intro k
+        simp only [keysOf_append, List.mem_append, hkm k]
+      rw [hd]
+      apply ih _ _ _ _ _ _ hres
+      · rw [← List.append_assoc, ← dropDup_append_eq _ _ hv]; exact dropDup_nodup_vals _
+      · rw [← List.append_assoc, hF, ← dropDup_append_eq _ _ hv']; exact dropDup_nodup_vals _
+
+theorem resolve_prefix (h : Key → Salt → Nat) (fuel : Nat) (newKeys : List Key) (a upd0 res : List KV)
+    (hv : (valsOf a).Nodup) (hres : resolve h fuel newKeys (a ++ upd0) = some res) : ∃ r, res = a ++ r := by
+  unfold resolve at hres
+  simp only at hres
+  obtain ⟨c0, hc0, _⟩ := dropDup_append_of_nodup a upd0 hv
+  obtain ⟨c, hc⟩ := resolveLoop_prefix h fuel 1 _ _ res (dropDup_nodup_vals _) hres
+  exact ⟨c0 ++ c, by rw [hc, hc0, List.append_assoc]⟩
+
+/-- `_resolve_collisions` adds the same entries whatever the order of the already registered part -/
+theorem resolve_congr (h : Key → Salt → Nat) (fuel : Nat) (newKeys : List Key) (a a' upd0 r : List KV)
+    (hperm : a'.Perm a) (hv : (valsOf a).Nodup)
+    (hres : resolve h fuel newKeys (a ++ upd0) = some (a ++ r)) :
+    resolve h fuel newKeys (a' ++ upd0) = some (a' ++ r) := by
+  have hpv : (valsOf a').Perm (valsOf a) := hperm.map _
+  have hpk : (keysOf a').Perm (keysOf a) := hperm.map _
+  have hv' : (valsOf a').Nodup := hpv.nodup_iff.mpr hv
+  have hvm : ∀ p, p ∈ valsOf a ↔ p ∈ valsOf a' := fun p => hpv.mem_iff.symm
+  have hkm : ∀ k, k ∈ keysOf a ↔ k ∈ keysOf a' := fun k => hpk.mem_iff.symm
+  unfold resolve at hres ⊢
+  simp only at hres ⊢
+  have hF : (dropDup upd0).filter (fun x => !(valsOf a).contains x.2) =
+      (dropDup upd0).filter (fun x => !(valsOf a').contains x.2) := by
+    apply List.filter_congr
+    intro x _
+    congr 1
+    exact contains_congr _ _ hvm x.2
+  rw [dropDup_append_eq _ _ hv] at hres
+  rw [dropDup_append_eq _ _ hv', ← hF]
+  have hd : diff newKeys (keysOf (a' ++ (dropDup upd0).filter (fun x => !(valsOf a).contains x.2))) =
+      diff newKeys (keysOf (a ++ (dropDup upd0).filter (fun x => !(valsOf a).contains x.2))) := by
+    apply diff_congr_right
+    intro k
+    simp only [keysOf_append, List.mem_append, hkm k]
+  rw [hd]
+  apply resolveLoop_congr h a a' hvm hkm _ _ _ _ _ _ _ hres
+  · rw [← dropDup_append_eq _ _ hv]; exact dropDup_nodup_vals _
+  · rw [hF, ← dropDup_append_eq _ _ hv']; exact dropDup_nodup_vals _
+
+/-- whatever survives the first `drop_duplicates` is in the final mapping -/
+theorem resolve_keeps_first (h : Key → Salt → Nat) (fuel : Nat) (newKeys : List Key) (current res : List KV)
+    (hres : resolve h fuel newKeys current = some res) : ∀ e ∈ dropDup current, e ∈ res := by
+  unfold resolve at hres
+  simp only at hres
+  obtain ⟨c, hc⟩ := resolveLoop_prefix h fuel 1 _ _ res (dropDup_nodup_vals _) hres
+  intro e he
+  rw [hc]; exact List.mem_append_left _ he
+
+theorem posOfKey_of_mem : ∀ (m : List Entry), (m.map (·.key)).Nodup → ∀ e ∈ m, posOfKey m e.key = some e.pos
+  | [], _, _, he => by cases he
+  | a :: as, hnd, e, he => by
+    simp only [List.map_cons, List.nodup_cons] at hnd
+    rcases List.mem_cons.mp he with he | he
+    · subst he; simp [posOfKey, List.find?]
+    · have hne : a.key ≠ e.key := by
+        intro heq; exact hnd.1 (by rw [heq]; exact List.mem_map_of_mem (f := (·.key)) he)
+      have hb : (a.key == e.key) = false := by simpa using hne
+      have := posOfKey_of_mem as hnd.2 e he
+      simpa [posOfKey, List.find?, hb] using this
+
+theorem posOfSim_of_mem : ∀ (m : List Entry), (m.map (·.sim)).Nodup → ∀ e ∈ m, posOfSim m e.sim = some e.pos
+  | [], _, _, he => by cases he
+  | a :: as, hnd, e, he => by
+    simp only [List.map_cons, List.nodup_cons] at hnd
+    rcases List.mem_cons.mp he with he | he
+    · subst he; simp [posOfSim, List.find?]
+    · have hne : a.sim ≠ e.sim := by
+        intro heq; exact hnd.1 (by rw [heq]; exact List.mem_map_of_mem (f := (·.sim)) he)
+      have hb : (a.sim == e.sim) = false := by simpa using hne
+      have := posOfSim_of_mem as hnd.2 e he
+      simpa [posOfSim, List.find?, hb] using this
+
+
+/-- the `internal` error of the model (a row without position after collision resolution, which the
+real code would turn into a NaN position) cannot occur -/
+theorem update_never_internal (h : Key → Salt → Nat) (fuel : Nat) (m : List Entry) (batch : List (Int × Key))
+    (t : Salt) (hpos : (m.map (·.pos)).Nodup) : update h fuel m batch t ≠ .error .internal := by
+  unfold update
+  simp only
+  split
+  · simp
+  rename_i hnd
+  split
+  · simp
+  rename_i res hbf
+  split
+  · rename_i hat
+    exfalso
+    have hnd' : (m.map (·.key) ++ batch.map (·.2)).Nodup := by
+      have : nodupB (List.map (fun x => x.2) (m.map rowOf ++ batch)) = true := by simpa using hnd
+      have := (nodupB_iff _).mp this
+      simpa [rowOf, List.map_append, List.map_map, Function.comp_def] using this
+    unfold buildFinal at hbf
+    simp only at hbf
+    obtain ⟨⟨c, hc, _⟩, _, hkr, hall⟩ :=
+      resolve_spec h fuel (batch.map (·.2)) (m.map kvOf) ((batch.map (·.2)).map fun k => (k, h k t)) res
+        (by rw [valsOf_kvOf]; exact hpos) (by rw [keysOf_kvOf]; exact hnd') (keysOf_map_pair _ _) hbf
+    obtain ⟨es, hes⟩ := attach_total res hkr (m.map rowOf ++ batch) (by
+      intro r hr
+      rcases List.mem_append.mp hr with hr | hr
+      · simp only [List.mem_map] at hr
+        obtain ⟨e, he, rfl⟩ := hr
+        rw [hc, keysOf_append, keysOf_kvOf]
+        exact List.mem_append_left _ (List.mem_map_of_mem (f := (·.key)) he)
+      · exact hall _ (List.mem_map_of_mem (f := (·.2)) hr))
+    rw [hes] at hat
+    cases hat
+  · simp
+
 
 end Viv.IndexMap
